@@ -39,7 +39,7 @@ THEOREMS = [
 LEAN_MODULES = ["PorepyVerif.C02.Props"]
 AUDIT = "PorepyVerif/C02/Audit.lean"
 DRIVER = "PorepyVerif/C02/Driver.lean"
-N = {"quick": 260, "thorough": 6000}
+N = {"quick": 200, "thorough": 25000}
 RULE = ("one python expression (depth <= 4, thorough <= 5) per case over a random md-grid (1-3 subdomains of dim 2/1/0, 0-2 mortar "
         "grids, variables created in random order: cell variable on all subdomains, 2-dof cell variable, face variable, interface "
         "variable), evaluated with derivative=True and False, with an explicit state or the stored iterate; operands of every kind "
@@ -55,31 +55,45 @@ TRUSTED = [
     "modelled, not verified: numpy/scipy arithmetic on floats, 1-d arrays and sparse matrices (transcribed as list functions over "
     "rationals); binary64 rounding (comparison of values and Jacobians with relative tolerance 1e-9)",
     "outside the model (answered `unsupported` by the model, skipped in the comparison and counted): powers with non-integer "
-    "exponents and AdArray exponents (logarithm), numpy broadcasting of length-1 arrays against longer ones, 2-d dense results "
+    "exponents and AdArray exponents (logarithm; the oracle does check those on the real code), 2-d dense results "
     "(ndarray +/- sparse), spmatrix `*` as matrix product, ArraySlicer with pending operand (slicer as right operand of * / + - **, "
-    "slicer @ slicer), ndarray @ ndarray; divisions by zero (numpy inf/nan) are `div0` and skipped",
+    "slicer @ slicer), ndarray @ ndarray; divisions by zero (numpy inf/nan) are `div0` and skipped; numpy broadcasting of a "
+    "length-1 array against a longer one is not modelled (the model raises ValueError on unequal lengths; where the real code "
+    "returns a value instead and the expression contains an operand of length <= 1 the comparison is skipped)",
     "ArraySlicer._slice_matrix (CSR index arithmetic) is modelled as a row scatter, valid for distinct range indices (property C36); "
     "the dof layout EquationSystem.dofs_of is read from the real system (property C05); get/set_solution_values storage is "
     "modelled as global vectors per index",
     "the parser's cache (identity-keyed dict of parsed leaves) is not modelled: leaves parse deterministically; bodies of "
     "pp.ad.Function are harness code (polynomials evaluated with operand order AdArray-first where numpy would take over)",
 ]
-EXPLANATION = ("FULL for the parser on the modelled arithmetic: model = AdParser.evaluate/_evaluate_single with its operand flips, "
-               "AdArray's methods as coded, python's dispatch on the parsed values, the Operator overloads building the tree "
-               "(incl. reverse ones), previous_timestep/iteration tree copies, all leaf kinds. Theorems: parse = direct "
-               "forward-mode evaluation (closed-form sum/product/quotient/power rules in mathematical operand order) for every "
-               "tree and environment including error kinds; derivative=False values = .val of derivative=True; previous "
-               "time/iterate leaves are the stored values and trees without current variables have zero Jacobian; the trees "
-               "python builds for `c op x` with a number/array/matrix on the left denote `c op x`. Correspondence compares "
-               "the built tree shape, value and dense Jacobian (tol 1e-9) or the error kind, for derivative True and False.")
+EXPLANATION = ("FULL for the parser on the modelled arithmetic. Model = AdParser.evaluate/_evaluate_single with its operand flips, "
+               "AdArray's methods as coded in forward_mode.py, python's dispatch of `l op r` on the parsed values, the Operator "
+               "overloads building the tree (incl. the reverse ones, _parse_other, __neg__), previous_timestep/iteration tree copies, "
+               "pp.ad.Function calls and all leaf kinds. Theorems (all trees, all environments): parse = direct forward-mode "
+               "evaluation with closed-form sum/product/quotient/power rules in mathematical operand order, error kinds included "
+               "(parseBin_eq_directBin over all 6x6x6 operation/operand-kind combinations, parse_eq_direct, evaluate_eq_direct); "
+               "derivative=False result = derivative=True result with the Jacobian dropped (parse_val_noderiv, evaluate_val_noderiv); "
+               "previous time-step / iterate leaves are the stored values (prev_leaf_is_stored), trees without current variables "
+               "evaluate independently of the derivative flag and get an all-zero Jacobian (prev_is_constant, prev_zero_jacobian), "
+               "previous_timestep/previous_iteration of any expression yields such a tree (shiftTime/shiftIter_no_current), adding "
+               "such a tree leaves the Jacobian unchanged (const_add_keeps_jacobian); the tree python builds for `c op x` with a "
+               "number / ndarray / sparse matrix c on the left denotes `c op x` (directBin_add_comm, reverse_build, "
+               "reverse_build_parse). Correspondence compares, per case, the shape of the tree built by the real overloads with the "
+               "model's `build`, and value + dense Jacobian (rel. tol 1e-9) or the error kind for derivative=True and False; the "
+               "driver also re-checks parse = direct on every case. The oracle is independent of Lean: forward-mode rules written "
+               "out in numpy/scipy (including real powers with logarithms) vs EquationSystem.evaluate, derivative=False vs True, "
+               "zero Jacobian of previous-only expressions, Operator.value / value_and_jacobian vs evaluate.")
 ASSUMPTIONS = [
-    "environment well-formedness for md-variables at previous indices: stored global vectors have the length of the state",
-    "reverse_build for `+`: the operator operand evaluates to a number, vector, matrix or AdArray (not an ArraySlicer)",
+    "parse_eq_direct / evaluate_eq_direct / prev_leaf_is_stored / reverse_build_parse: stored global vectors have the length of the "
+    "state vector (EnvWF; needed only for md-variables at previous indices, whose values the parser scatters into a state-shaped vector)",
+    "shiftTime_no_current / shiftIter_no_current: private time-step / iterate indices of the variables are >= -1 (indexOk), as the "
+    "constructors guarantee",
+    "reverse_build for `+` (python builds `x + c`): the operator operand evaluates to a number, vector, matrix or AdArray, not to an "
+    "ArraySlicer; for `c ** x` with a scipy matrix c python never reaches the reverse overload (excluded)",
+    "evaluate_val_noderiv and parse_val_noderiv are conditional on the derivative=True evaluation succeeding",
+    "values are dyadic rationals of small magnitude; results are compared with relative tolerance 1e-9 (binary64 rounding is outside "
+    "the theorems)",
 ]
-
-
-DISABLED = True
-
 OPS = {"add": operator.add, "sub": operator.sub, "mul": operator.mul, "div": operator.truediv, "pow": operator.pow,
        "matmul": operator.matmul}
 TOL = 1e-9
@@ -181,6 +195,7 @@ class World:
                 for t, per_grid in enumerate(td["time"]):
                     pp.set_solution_values(td["name"], np.array([fl(x) for x in per_grid[gi]]), data, time_step_index=t)
         self.state = np.array([fl(x) for x in case["state"]]) if case["use_state"] else None
+        self._leaf_memo = {}
 
     def _data(self, gk):
         g = self.objs[gk]
@@ -194,6 +209,17 @@ class World:
 
     # -- python objects of an expression (real operators, built through the overloads)
     def build(self, e):
+        """python object of an expression; with case["share"] equal leaves are ONE object (so that the parser's
+        cache of parsed leaves is hit), otherwise every occurrence is a fresh object"""
+        if self.case.get("share") and e["k"] in ("scalar", "dense", "sparse", "proj", "plist", "td", "gridproj"):
+            import json
+            key = json.dumps(e, sort_keys=True)
+            if key not in self._leaf_memo:
+                self._leaf_memo[key] = self._build(e)
+            return self._leaf_memo[key]
+        return self._build(e)
+
+    def _build(self, e):
         pp = self.pp
         k = e["k"]
         if k == "var":
@@ -416,6 +442,31 @@ def model_decode(outs, case):
 SKIP = ("unsupported", "div0")
 
 
+def _may_broadcast(case):
+    """does the expression contain an operand that can have length 1 (numpy then broadcasts instead of raising)?"""
+    for n in _nodes(case["expr"]):
+        k = n["k"]
+        if k == "var":
+            v = next(v for v in case["vars"] if v["name"] == n["name"])
+            if sum(var_size(case, v, g) for g in n["grids"]) <= 1:
+                return True
+        elif k == "dense" and len(n["v"]) <= 1:
+            return True
+        elif k == "raw" and ((n["r"]["k"] == "arr" and len(n["r"]["v"]) <= 1) or (n["r"]["k"] == "sp" and len(n["r"]["rows"]) <= 1)):
+            return True
+        elif k == "sparse" and len(n["rows"]) <= 1:
+            return True
+        elif k == "proj" and n["rsize"] <= 1:
+            return True
+        elif k == "plist" and any(p["rsize"] <= 1 for p in n["ps"]):
+            return True
+        elif k == "td" and sum(grid_counts(case["grids"][g])[0] for g in case["td"][n["id"]]["grids"]) <= 1:
+            return True
+        elif k == "gridproj":
+            return True
+    return False
+
+
 def compare(impl, model, case):
     if "harness_exc" in impl:
         return f"harness exception: {impl['harness_exc']}"
@@ -435,8 +486,10 @@ def compare(impl, model, case):
         m, i = model[key], impl[key]
         if m.get("err") in SKIP:
             continue
+        if m.get("err") == "ValueError" and "err" not in i and _may_broadcast(case):
+            continue  # numpy broadcasts a length-1 array against a longer one; the model demands equal lengths
         if i.get("kind") == "nonfinite":
-            return f"{key}: impl non-finite, model {str(m)[:200]}"
+            continue  # binary64 overflow (or 0 * inf) in the real code: outside the rational model
         d = deep_compare(i, m, key, tol=TOL)
         if d:
             return d
@@ -449,10 +502,10 @@ class Skip(Exception):
 
 
 class OV:
-    """value of the direct evaluation: number / vector (+ Jacobian) / matrix"""
+    """value of the direct evaluation: number / vector (+ Jacobian) / matrix / projection"""
 
     def __init__(self, kind, val, jac=None):
-        self.kind, self.val, self.jac = kind, val, jac  # kind: "s" float, "v" vector, "m" scipy matrix (projections too)
+        self.kind, self.val, self.jac = kind, val, jac  # kind: "s" float, "v" vector, "m" scipy matrix, "p" projection (as matrix)
 
 
 def _diag(v):
@@ -463,8 +516,10 @@ def _diag(v):
 def _obin(op, l, r):
     """mathematical forward-mode rule for `l op r` (operand order as written)."""
     import scipy.sparse as sps
+    if "p" in (l.kind, r.kind) and not (op == "matmul" and l.kind == "p" and r.kind in ("v", "m")):
+        raise Skip()  # a projection only acts from the left through @
     if op == "matmul":
-        if l.kind != "m":
+        if l.kind not in ("m", "p"):
             raise Skip()
         if r.kind == "s":
             raise Skip()
@@ -579,14 +634,14 @@ def _oeval(w, e, deriv):
     if k == "sparse":
         return OV("m", _sp(e).tocsr())
     if k == "proj":
-        return OV("m", _proj_matrix(e))
+        return OV("p", _proj_matrix(e))
     if k == "plist":
         if not e["ps"]:
             raise Skip()
         shapes = {(p["rsize"], p["dsize"]) for p in e["ps"]}
         if len(shapes) != 1:
             raise Skip()
-        return OV("m", sum((_proj_matrix(p) for p in e["ps"][1:]), _proj_matrix(e["ps"][0])))
+        return OV("p", sum((_proj_matrix(p) for p in e["ps"][1:]), _proj_matrix(e["ps"][0])))
     if k == "td":
         td = case["td"][e["id"]]
         t = e.get("t", -1)
@@ -715,7 +770,7 @@ def _oracle(case):
             warnings.simplefilter("ignore")
             direct = _oeval(w, case["expr"], True)
             direct0 = _oeval(w, case["expr"], False)
-        if direct.kind == "m" or not np.all(np.isfinite(np.atleast_1d(direct.val))):
+        if direct.kind in ("m", "p") or not np.all(np.isfinite(np.atleast_1d(direct.val))):
             direct = None
         elif direct.jac is not None and not np.all(np.isfinite(_dense(direct.jac))):
             direct = None
@@ -749,9 +804,9 @@ def _oracle(case):
             return {"what": f"evaluate(derivative=True) raises {type(r1).__name__} ({str(r1)[:120]}) although the expression has the direct value {dval[:6].tolist()}", "key": f"parser-raises:{type(r1).__name__}:{sig}"}
         if not isinstance(r1, pp.ad.AdArray):
             return {"what": f"evaluate(derivative=True) returned {type(r1).__name__}, not an AdArray", "key": f"not-adarray:{sig}"}
-        if np.all(np.isfinite(r1.val)) and not _arr_close(r1.val, dval):
+        if not _arr_close(r1.val, dval):  # the direct value is finite: nan/inf from the parser is a difference too
             return {"what": f"value differs from direct forward-mode evaluation: {r1.val[:6].tolist()} vs {dval[:6].tolist()}", "key": f"value-differs:{sig}"}
-        if np.all(np.isfinite(_dense(r1.jac))) and not _arr_close(_dense(r1.jac), djac):
+        if not _arr_close(_dense(r1.jac), djac):
             return {"what": f"Jacobian differs from direct forward-mode evaluation: {_dense(r1.jac)[:3].tolist()} vs {djac[:3].tolist()}", "key": f"jacobian-differs:{sig}"}
         d0 = np.atleast_1d(np.asarray(direct0.val, dtype=float))
         if isinstance(r0, Exception):
@@ -762,8 +817,6 @@ def _oracle(case):
         v0 = np.atleast_1d(np.asarray(r0, dtype=float)) if isinstance(r0, (int, float, np.ndarray)) and np.ndim(r0) <= 1 else None
         if v0 is None or not _arr_close(v0, r1.val):
             return {"what": f"values with and without derivatives disagree: {r0 if v0 is None else v0[:6].tolist()} vs {r1.val[:6].tolist()}", "key": f"noderiv-disagrees:{sig}"}
-    if isinstance(r1, pp.ad.AdArray) and isinstance(r0, Exception) and not isinstance(r0, (ZeroDivisionError,)):
-        return {"what": f"derivative=True gives a value but derivative=False raises {type(r0).__name__}", "key": f"noderiv-raises:{type(r0).__name__}:{sig}"}
     if isinstance(r1, pp.ad.AdArray) and np.all(np.isfinite(r1.val)) and np.all(np.isfinite(_dense(r1.jac))) and len(sig) % 3 == 0:
         # the deprecated entry points of the operator itself go through the same parser
         with warnings.catch_warnings():
@@ -955,8 +1008,9 @@ class Gen:
         if p < 0.60:  # powers
             base = self.vec(n, depth - 1)
             ex = self.exponent() if r.random() < 0.7 else {"k": "dense", "v": ivec(r, n)}
-            if r.random() < 0.12:
-                base, ex = ex, base  # number ** vector: needs the logarithm when the vector is an AdArray
+            if r.random() < 0.12:  # number ** vector: needs the logarithm when the vector is an AdArray
+                base = {"k": "scalar", "c": frac(abs(Fraction(rv(r))))} if r.random() < 0.5 else {"k": "dense", "v": [frac(abs(Fraction(x))) for x in rvec(r, n, 0.0)]}
+                ex = self.vec(n, min(depth - 1, 1))
             return self.maybe_raw({"k": "bin", "op": "pow", "a": base, "b": ex})
         if p < 0.72:  # matrix @ vector
             m = r.choice(self.sizes) if r.random() < 0.7 else r.randint(1, 5)
@@ -1032,8 +1086,9 @@ class Gen:
     def ill(self, n, depth):
         """an ill-typed (or oddly typed) node"""
         r = self.rng
+        n = max(2, n)
         if r.random() < 0.5:  # size mismatch, both sizes >= 2
-            m = max(2, n) + r.choice([1, 2])
+            m = n + r.choice([1, 2])
             op = r.choice(["add", "sub", "mul", "div", "pow", "matmul"])
             a, b = self.vec(max(2, n), depth - 1), self.vec(m, depth - 1)
             if op == "matmul":
@@ -1070,6 +1125,7 @@ def gen_case(rng, tier):
         if not _has_raw_pair(e) and e["k"] != "raw":
             break
     case["expr"] = e
+    case["share"] = rng.random() < 0.5
     return case
 
 
@@ -1135,12 +1191,13 @@ def stats(cases, impl_outs):
     for c in cases:
         try:
             d = _oeval(world(c), c["expr"], True)
-            verdicts += d.kind != "m"
+            verdicts += d.kind not in ("m", "p")
         except Skip:
             pass
         except Exception:
             pass
     return {"oracle_has_direct_value": verdicts, "node_kinds": dict(kinds), "operations": dict(ops), "raw_operands": dict(raws), "derivative_true": dict(res1),
             "derivative_false": dict(res0), "use_state": sum(1 for c in cases if c["use_state"]),
+            "shared_leaf_objects": sum(1 for c in cases if c.get("share")),
             "subdomains": dict(Counter(sum(1 for g in c["grids"] if g["kind"] == "sub") for c in cases)),
             "interfaces": dict(Counter(sum(1 for g in c["grids"] if g["kind"] == "intf") for c in cases))}
